@@ -62,23 +62,56 @@ def run(ctx):
     tl = m.fn("Qentem::StringUtils::TrimLeft")
     ctx.note_fn(tl)
     sws = astq.nodes_of(tl, "SwitchStmt")
-    if len(sws) != 1:
-        raise AnalysisBroken("TrimLeft: expected one switch")
     skipped = set()
-    for labels, stmts in astq.switch_arms(tl, sws[0]):
-        if any(l[0] == "default" for l in labels):
-            rets = [x for s in stmts for x in astq.returns(tl, s)]
-            r.ob(tl.q, "default", bool(rets), "any other unit stops the scan", tl.loc(stmts[0]) if stmts else "", nontrivial=False)
-            continue
-        stops = any(astq.returns(tl, s) for s in stmts)
-        for l in labels:
-            v = jsontab.label_value(m, tl, l)
-            if not stops:
+    anchor = None
+    if len(sws) == 1:
+        anchor = sws[0]
+        for labels, stmts in astq.switch_arms(tl, sws[0]):
+            if any(l[0] == "default" for l in labels):
+                rets = [x for s in stmts for x in astq.returns(tl, s)]
+                r.ob(tl.q, "default", bool(rets), "any other unit stops the scan", tl.loc(stmts[0]) if stmts else "", nontrivial=False)
+                continue
+            stops = any(astq.returns(tl, s) for s in stmts)
+            for l in labels:
+                v = jsontab.label_value(m, tl, l)
+                if not stops:
+                    skipped.add(v)
+    elif not sws:
+        # if-form: the scan stops (returns) under a condition over the current unit; the skipped set is the exact complement
+        # of that condition's value-set
+        from rules.C20 import value_set, Unrecognised
+        loops_ = astq.nodes_of(tl, ("WhileStmt", "ForStmt", "DoStmt"))
+        stop_ifs = [i for i in astq.nodes_of(tl, "IfStmt", loops_[0] if loops_ else None) if astq.returns(tl, tl.nodes[i]["then"]) and tl.nodes[i]["else"] < 0]
+        units = [d for st_ in astq.nodes_of(tl, "DeclStmt") for d in tl.nodes[st_]["decls"] if d.get("init", -1) >= 0 and tl.nodes[tl.strip_casts(d["init"])]["k"] == "ArraySubscriptExpr"]
+        if len(stop_ifs) != 1 or len(units) != 1:
+            raise AnalysisBroken("TrimLeft: neither one switch nor one stop test over a local copy of the current unit")
+        anchor = stop_ifs[0]
+
+        def res(fn_, x):
+            try:
+                return m.resolve_dep_const(fn_.text(fn_.strip_casts(x)))
+            except Exception:
+                return None
+        try:
+            stop = value_set(tl, tl.nodes[stop_ifs[0]]["cond"], units[0]["d"], width=21, resolve=res)
+        except Unrecognised as e:
+            raise AnalysisBroken("TrimLeft: stop condition outside the value-set algebra: %s" % e)
+        pos = 0
+        for (a_, b_) in stop:
+            for v in range(pos, a_):
                 skipped.add(v)
+                if len(skipped) > 64:
+                    break
+            pos = b_ + 1
+        if pos <= 0x10FFFF:
+            skipped |= set(range(pos, min(pos + 64, 0x110000)))
+        r.ob(tl.q, "stop test", True, "any unit outside the skipped set stops the scan (value-set of `%s`)" % tl.text(tl.nodes[stop_ifs[0]]["cond"])[:80], tl.loc(stop_ifs[0]), nontrivial=False)
+    else:
+        raise AnalysisBroken("TrimLeft: more than one switch")
     for w in sorted(jsontab.RFC8259_WS):
-        r.ob(tl.q, "ws %#x" % w, w in skipped, "RFC whitespace must be skipped", tl.loc(sws[0]))
-    for x in skipped - jsontab.RFC8259_WS:
-        r.ob(tl.q, "ws %r" % x, False, "unit outside the RFC whitespace set is skipped", tl.loc(sws[0]))
+        r.ob(tl.q, "ws %#x" % w, w in skipped, "RFC whitespace must be skipped", tl.loc(anchor))
+    for x in sorted(skipped - jsontab.RFC8259_WS)[:4]:
+        r.ob(tl.q, "ws %r" % x, False, "unit outside the RFC whitespace set is skipped", tl.loc(anchor))
     rules.append(r)
 
     # ---- keywords
